@@ -364,6 +364,7 @@ def r2_bounds(ctx):
 _LOCAL_LABEL = {}
 _LOCAL_EXPAND = {}
 _PROG = [None]
+_KNOWN = [None]
 _CLOSURE_CACHE = {}
 
 
@@ -416,6 +417,11 @@ def _atoms(t, depth=0):
             for a in t[2]:
                 out |= _atoms(a, depth + 1)
             return out
+        if t[1].startswith("inkayaku_") and _KNOWN[0] is not None and t[1] not in _KNOWN[0] and "{closure" not in t[1]:
+            # a workspace function that does not exist on the reviewed tree and could not be spliced in: what it
+            # tests is unknown (like a variable this rule cannot trace)
+            out.add("local")
+            return out
         if short.split("::")[0] in ("PartialOrd", "Ord") and short.split("::")[-1] in ("gt", "lt", "ge", "le", "cmp", "partial_cmp"):
             short = "PartialOrd::compare"       # a > b is b < a
         elif short.split("::")[0] in ("PartialEq",) and short.split("::")[-1] in ("eq", "ne"):
@@ -435,8 +441,13 @@ def _atoms(t, depth=0):
         else:
             out.add("local")
     elif k == "f":
+        # `self.state.bitboard.turn`: what is read is `turn`; the way there (receiver, owning structs) is navigation
         out.add("field:" + str(t[2]))
-        out |= _atoms(t[1], depth + 1)
+        base = t[1]
+        while isinstance(base, tuple) and base and base[0] in ("f", "*", "&", "dc"):
+            base = base[1]
+        if not (base[0] == "param" and base[1] == 1):
+            out |= _atoms(base, depth + 1)
     elif k == "bin":
         out.add("cmp" if t[1] in ("Ge", "Gt", "Le", "Lt", "Eq", "Ne") else "op:" + t[1])
         out |= _atoms(t[2], depth + 1) | _atoms(t[3], depth + 1)
@@ -640,6 +651,8 @@ def r4_control_inventory(ctx):
     seen = set()
     _PROG[0] = ctx.prog
     _CLOSURE_CACHE.clear()
+    from ..inline import known_functions
+    _KNOWN[0] = known_functions()
 
     def category(key):
         parts = key.split("|if ")[0].split("|")
@@ -667,6 +680,22 @@ def r4_control_inventory(ctx):
         _known_fields = None
     # a field of a type that does not exist on the reviewed tree (a helper's result struct / enum) is plumbing: what
     # it carries was computed from something else, which is described by its own atoms
+    # a reviewed exit may test the result of a workspace function (`call:Search::evaluate`); when that function is
+    # renamed / re-parameterised and therefore spliced in, the same exit tests what the function's body computes:
+    # the vocabulary is closed under the bodies (on the current tree) of the workspace callees it names
+    def body_atoms(short):
+        out = set()
+        for k_, g_ in ctx.prog.fns.items():
+            if not k_.startswith("inkayaku_") or g_.get("test") or "::".join(k_.replace("<", "").replace(">", "").split("::")[-2:]) != short:
+                continue
+            out |= _closure_atoms(k_)
+        return out
+    for cat_ in list(allowed):
+        extra_ = set()
+        for a_ in list(allowed[cat_]):
+            if a_.startswith("call:"):
+                extra_ |= body_atoms(a_[5:])
+        allowed[cat_] |= {("arg" + x[7:-1]) if x.startswith("var(arg") else x for x in extra_}
     STRUCTURAL = lambda a: a in ("cmp", "discr", "local") or a.startswith("op:") or a.startswith("const:") or a.startswith("agg:") or \
         (a.startswith("field:") and _known_fields is not None and a[6:] not in _known_fields)
     for name in ("search_negamax", "search_quiescence"):
@@ -682,6 +711,8 @@ def r4_control_inventory(ctx):
             # reviewed as it stands, or built only from what the reviewed exits of the same kind test (the same
             # conditions regrouped, negated, split over a helper or a temporary): not a new cut-off
             new_atoms = {a for a in key_atoms(key) - allowed.get(category(key), set()) if not STRUCTURAL(a)}
+            if kind == "exit" and "|before-loop|" in key:
+                new_atoms.discard("counter")        # (a count made before the move loop is no move counter)
             ok = key in reviewed or not new_atoms
             if not ok and kind == "exit" and "|loop-or-after|" in key:
                 # a return after (or out of) the move loop hands back what the loop found; leaving the loop early is
